@@ -43,7 +43,10 @@ MUTATORS = ("AddVariable", "RemoveVariable", "RenameVariable", "FilterVariables"
             "SetLowerBound", "SetUpperBound", "SetCurrentValue", "SetCurrentVariable", "InitializeMissing",
             "ToggleIntegerNormalization")
 QUERIES = ("QNormalize", "QMembership", "QCurrent", "QNormCurrent")
-REFUTE = {"D1": "IndexCoherence", "D3": "MemberCacheCoherence", "D15": "CurCacheCoherence", "D16": "PolicyCoherence"}
+# rules as the code had them (D1..D16, now repaired) and one rule it never had (S1: remove_variable drops the
+# current-value caches only when the removed variable had a value), each with the invariant TLC must refute
+REFUTE = {"D1": "IndexCoherence", "D3": "MemberCacheCoherence", "D15": "CurCacheCoherence", "D16": "PolicyCoherence",
+          "S1": "CurCacheCoherence"}
 
 
 def tla_set(xs):
@@ -66,7 +69,8 @@ def abs_cfg(c):
 
 def impl_cfg(c, as_coded=(), refine=True, bounded=True):
     s = constants(c) + (f" AsCoded = {tla_set(as_coded)}\n Vias = {tla_set(c['vias'])}\n Forms = {tla_set(c['forms'])}\n"
-                        f" QKinds = {tla_set(c['qkinds'])}\n FilterModes = {tla_set(c['fmodes'])}\n")
+                        f" QKinds = {tla_set(c['qkinds'])}\n FilterModes = {tla_set(c['fmodes'])}\n"
+                        f" Enabled = {tla_set(c.get('enabled', MUTATORS + QUERIES))}\n")
     s += "SPECIFICATION ImplSpec\nCONSTRAINT Bounded\nCHECK_DEADLOCK FALSE\n"
     for i in IMPL_INVS:
         s += f"INVARIANT {i}{'' if as_coded or not bounded else 'B'}\n"
@@ -140,6 +144,8 @@ def fill_caches(ds, state, view):
         return
     if state["normValid"]:
         ds.normalize_vect(vec(view["xs"][0]))
+    if not view["hascur"]:
+        return  # (hidden caches - kept while a value is missing - cannot be rebuilt without the history)
     if len(state["curArrC"]):
         ds.get_current_value()
     if len(state["normCurC"]):
@@ -505,6 +511,15 @@ THOROUGH = dict(nnames=4, maxvars=3, templates=[1, 2, 3, 5], lbvals=[16], ubvals
                 qkinds=["normalize", "unnormalize", "round", "project"], fmodes=["inplace", "copy"])
 
 
+# the life cycle of the current value: which edits happen while a value is missing, and how it becomes complete again
+FOCUS_ACTS = ["AddVariable", "RemoveVariable", "FilterVariables", "FilterDimensions", "SetCurrentVariable",
+              "SetCurrentValue", "InitializeMissing", "RenameVariable", "QCurrent", "QNormCurrent"]
+FOCUS_Q = dict(QUICK, templates=[1], cur=["hi"], level=6, vias=["add"], forms=["array"], fmodes=["inplace"],
+               enabled=FOCUS_ACTS)
+FOCUS_T = dict(QUICK, templates=[1, 2], cur=["lo", "hi"], level=7, vias=["add", "extend"], forms=["array", "dict"],
+               fmodes=["inplace", "copy"], enabled=FOCUS_ACTS)
+
+
 def tier_constants(ck: Check):
     return dict(THOROUGH if ck.thorough else QUICK)
 
@@ -599,6 +614,61 @@ class Replayer:
 EMPTY = {"vars": (), "intNorm": False, "normValid": False, "curArrC": (), "normCurC": ()}
 
 
+def tour_graph(ck, DesignSpace, c, tag, views, timing, rng, required, refine_on=None, refine=True):
+    """TLC: coherence invariants (+ refinement) on the bounded graph of DesignSpaceImpl, dump of the labelled
+    graph (one worker: with several, the BFS level of a state - hence the depth-bounded graph - depends on
+    scheduling), views of its abstract states, replay of a transition tour on real design spaces."""
+    t0 = time.time()
+    # refinement of the abstract next-state relation (PROPERTY Spec) is costly - the abstract Next is evaluated on
+    # every transition - and is checked on `refine_on` (smaller constants) when given
+    ck.tlc("DesignSpaceImpl", impl_cfg(c, refine=refine and refine_on is None), workers=8, timeout=1500, count=False)
+    if refine_on is not None:
+        ck.tlc("DesignSpaceImpl", impl_cfg(refine_on), workers=8, timeout=1500, count=False)
+    timing[tag + "_tlc_verify_s"] = round(time.time() - t0, 1)
+    t0 = time.time()
+    r = ck.tlc("DesignSpaceImpl", impl_cfg(c, refine=False), workers=1, timeout=1500, dump=True, coverage=False)
+    timing[tag + "_tlc_graph_s"] = round(time.time() - t0, 1)
+    t0 = time.time()
+    g = Graph(ck.work / "DesignSpaceImpl.dot")
+    canonical(g)
+    if len(g.states) != r.distinct:
+        raise MachineryError(f"graph has {len(g.states)} states, TLC found {r.distinct}")
+    # vacuity: every enabled action of the module labels at least one transition of the graph
+    # (TLC's per-action count of NEW states is 0 for actions whose targets are always found first by another one)
+    present = {e[2] for e in g.edges}
+    for a in required:
+        if a not in present:
+            raise MachineryError(f"vacuity: action {a} of DesignSpaceImpl labels no transition ({tag})")
+    hidden = sum(1 for st in g.states.values() if not st["hasCur"] and len(st["curArrC"]))
+    tour = g.tour()
+    info = {"states": len(g.states), "edges": len(g.edges), "tour_paths": len(tour),
+            "tour_steps": sum(len(p) for p in tour), "states_with_hidden_current_value_cache": hidden}
+    # expected views of the abstract states of the graph, computed by TLC
+    abs_states = {}
+    for st in g.states.values():
+        k = absstate(st)
+        if k not in views:
+            abs_states.setdefault(k, (st["vars"], st["intNorm"]))
+    if abs_states:
+        views.update(views_for(ck, c, list(abs_states.values()), tag))
+    info["abstract_states"] = len({absstate(st) for st in g.states.values()})
+    timing[tag + "_views_s"] = round(time.time() - t0, 1)
+    # replay the transition tour on real design spaces
+    t0 = time.time()
+    rp = Replayer(ck, DesignSpace, views)
+    for path in tour:
+        steps = [(k, g.edges[k][2], g.edges[k][3], g.states[g.edges[k][0]], g.states[g.edges[k][1]]) for k in path]
+        hist = rp.run(steps, tag)
+        if rng.random() < 0.01 or len(ck.samples) < 3:
+            ck.sample({"tour_path": hist[:12]})
+    if len(rp.checked) != len(g.edges):
+        raise MachineryError(f"tour covered {len(rp.checked)} of {len(g.edges)} transitions ({tag})")
+    timing[tag + "_replay_s"] = round(time.time() - t0, 1)
+    info["replay"] = {"steps": rp.n_steps, "projections": rp.n_proj, "resynchronisations": rp.n_resync,
+                      "transitions_with_disagreement": len(rp.bad)}
+    ck.extra[tag] = info
+
+
 def run(ck: Check):
     try:
         _run(ck)
@@ -637,57 +707,17 @@ def _run(ck: Check):
     ck.extra["as_coded_rules_refuted"] = {d: {"invariant": REFUTE[d], "history": h} for d, h in refuted.items()}
     timing["refutations_s"] = round(time.time() - t0, 1)
 
-    # ---- 3. implementation-shaped module: coherence + refinement, labelled state graph
-    # (one worker: with several, the BFS level of a state - hence the depth-bounded graph - depends on scheduling)
-    t0 = time.time()
-    # coherence invariants on the whole bounded graph; refinement of the abstract next-state relation
-    # (PROPERTY Spec, costly: the abstract Next is evaluated on every transition) on the quick-size constants
-    ck.tlc("DesignSpaceImpl", impl_cfg(c, refine=not ck.thorough), workers=8, timeout=1500, count=False)
-    if ck.thorough:
-        ck.tlc("DesignSpaceImpl", impl_cfg(dict(c, **QUICK)), workers=8, timeout=1500, count=False)
-    timing["impl_tlc_verify_s"] = round(time.time() - t0, 1)
-    t0 = time.time()
-    r = ck.tlc("DesignSpaceImpl", impl_cfg(c, refine=False), workers=1, timeout=1500, dump=True, coverage=False)
-    timing["impl_tlc_graph_s"] = round(time.time() - t0, 1)
-    t0 = time.time()
-    g = Graph(ck.work / "DesignSpaceImpl.dot")
-    canonical(g)
-    if len(g.states) != r.distinct:
-        raise MachineryError(f"graph has {len(g.states)} states, TLC found {r.distinct}")
-    # vacuity: every action of the module labels at least one transition of the graph
-    # (TLC's per-action count of NEW states is 0 for actions whose targets are always found first by another one)
-    present = {e[2] for e in g.edges}
-    for a in MUTATORS + QUERIES:
-        if a not in present:
-            raise MachineryError(f"vacuity: action {a} of DesignSpaceImpl labels no transition")
-    tour = g.tour()
-    timing["graph_parse_and_tour_s"] = round(time.time() - t0, 1)
-    ck.extra["impl_graph"] = {"states": len(g.states), "edges": len(g.edges), "tour_paths": len(tour),
-                              "tour_steps": sum(len(p) for p in tour)}
-
-    # ---- 4. expected views of the abstract states of the graph, computed by TLC
-    t0 = time.time()
-    abs_states = {}
-    for st in g.states.values():
-        abs_states.setdefault(absstate(st), (st["vars"], st["intNorm"]))
-    views = views_for(ck, c, list(abs_states.values()), "graph")
-    timing["views_s"] = round(time.time() - t0, 1)
-    ck.extra["impl_graph"]["abstract_states"] = len(abs_states)
-
-    # ---- 5. replay the transition tour on real design spaces
-    t0 = time.time()
-    rp = Replayer(ck, DesignSpace, views)
-    for path in tour:
-        steps = [(k, g.edges[k][2], g.edges[k][3], g.states[g.edges[k][0]], g.states[g.edges[k][1]]) for k in path]
-        hist = rp.run(steps, "tour")
-        if rng.random() < 0.01 or len(ck.samples) < 3:
-            ck.sample({"tour_path": hist[:12]})
-    if len(rp.checked) != len(g.edges):
-        raise MachineryError(f"tour covered {len(rp.checked)} of {len(g.edges)} transitions")
+    # ---- 3.-5. implementation-shaped module: coherence + refinement, labelled state graph, views, tour replay
+    views = {}
+    tour_graph(ck, DesignSpace, c, "impl_graph", views, timing, rng, required=MUTATORS + QUERIES,
+               refine_on=None if not ck.thorough else dict(c, **QUICK))
+    # a second, deeper graph restricted to the life cycle of the current value and of its caches: the vector is
+    # cached, a value goes missing (add without value), values are edited behind the hidden caches, the value
+    # becomes complete again (remove/filter/initialize/set), the vector is read again
+    fc = dict(FOCUS_T if ck.thorough else FOCUS_Q)
+    tour_graph(ck, DesignSpace, fc, "current_value_graph", views, timing, rng, required=tuple(fc["enabled"]),
+               refine=False)  # (same actions as above: the refinement is already checked there)
     ck.exhaustive = True
-    timing["replay_s"] = round(time.time() - t0, 1)
-    ck.extra["replay"] = {"steps": rp.n_steps, "projections": rp.n_proj, "resynchronisations": rp.n_resync,
-                          "transitions_with_disagreement": len(rp.bad)}
 
     # ---- 6. longer random behaviours over larger alphabets (tlc -simulate), replayed the same way
     t0 = time.time()
